@@ -2,6 +2,7 @@
 //! Plonky3-recursion, with a hash-order seam and fault plans. See /verif/DESIGN.md.
 
 mod cdigest;
+mod chal;
 mod core;
 mod bus;
 mod gprog;
@@ -58,6 +59,8 @@ fn main() {
         "C01" => props::c01::main(&ctx),
         "C02" => props::c02::main(&ctx),
         "C03" => props::c03::main(&ctx),
+        "C05" => props::c05::main(&ctx),
+        "C06" | "C12" => props::c06::main(&ctx),
         "C09" => props::c10::main(&ctx, true),
         "C10" => props::c10::main(&ctx, false),
         "C14" => props::c14::main(&ctx),
